@@ -346,6 +346,30 @@ def alias_probe(R, ctx, family, also=()):
     return bad
 
 
+def alias_aim(R, ctx, own=None, counters=True):
+    """fact F7 is broken (a new in-place write to a possibly stored slice, or a non-owned slice handed to the keyspace): aim the input search at the
+    executor family of the file that holds the new site - the alias probes of that family (all families when the file belongs to none), and the
+    concurrent scenario `counters` (values oscillating across digit boundaries while other clients list them).  If nothing is found the check ends
+    with `VIOLATION ... no-failing-input-found` naming the site and the theorem."""
+    broken = getattr(R, "alias_broken", None)
+    if not broken:
+        return
+    from . import aliassuite, concsuite
+    fams = [f for f in aliassuite.families_of_sites(broken.get("new", [])) if f != own]
+    R.extra["f7_directed"] = dict(families=fams, sites=["%s %s: %s" % (b["file"], b["func"], b["text"]) for b in broken.get("new", [])][:12])
+    if fams:
+        aliassuite.run_alias(R, ctx, fams, label="aimed-" + "+".join(fams))
+    if counters and not any(found for _p, _s, found in R.violations):
+        concsuite.run_conc(R, ctx, "f7-counters", ["counters"], (2, 8), race=False)
+    if not any(found for _p, _s, found in R.violations):
+        msgs = [m for f, ms in getattr(R, "facts_broken", []) if f == "F7" for m in ms]
+        R.violation("f7-alias-sites", dict(kind="proof-broken", broken=msgs, theorems=["AliasSites.no_inplace_write_to_stored", "AliasSites.inventory",
+                                                                                         "AliasSites.installed_values_own_their_bytes", "AliasSites.install_inventory"],
+                                           summary="obligation of Props/C01Alias (stored byte slices are never rewritten in place) no longer holds for the regenerated source facts: " +
+                                                   "; ".join(msgs)[:700] + " - no reply changed in the alias probes (families: %s) nor in the counters scenario" % (",".join([own] if own else []) + ",".join(fams))),
+                    found_input=False)
+
+
 def alias_replay(R, payload):
     from . import aliassuite
     return aliassuite.replay_alias(R, payload)
